@@ -292,7 +292,7 @@ type vfOp struct {
 
 type vfConfig struct {
 	wrap                       int   // 0 = plain Causal; 1 = WrapperCache(SWA, causal); 2 = WrapperCache(causal, SWA) (kw-* lines only)
-	variant                    int   // model variant bits (passed through to the oracle): 1 fixDefrag, 2 fixResume, 4 fixDiv
+	variant                    int   // model variant bits (passed through to the oracle): 1 fixDefrag, 2 fixResume, 4 fixDiv, 8 perSeqBatch
 	window                     int32 // math.MaxInt32 = none
 	maxSeq, capacity, maxBatch int
 	cachePad, batchPad         int
@@ -1389,6 +1389,8 @@ func vfCells(cf vfConfig) int {
 	var n int
 	if cf.window == math.MaxInt32 || cf.capacity < int(cf.window) {
 		n = cf.maxSeq * cf.capacity
+	} else if cf.variant&8 != 0 {
+		n = cf.maxSeq * (int(cf.window) + cf.maxBatch)
 	} else {
 		n = cf.maxSeq*int(cf.window) + cf.maxBatch
 	}
@@ -1919,7 +1921,8 @@ func vfEmit(out *zzverif.Out, cf vfConfig, ops []vfOp) {
 
 // TestVerifC06Probe determines which of the three repairs the tree under test carries, by running the
 // real code on the three witness histories (Tie 1: the model variant is a fact regenerated from the
-// tree on every run).  Writes variant.txt: bit 1 = F14 repaired, 2 = F15b repaired, 4 = F23 repaired.
+// tree on every run).  Writes variant.txt: bit 1 = F14 repaired, 2 = F15b repaired, 4 = F23 repaired,
+// 8 = sliding-window capacity counts the batch per sequence (C07 F-SWA-capacity repaired).
 func TestVerifC06Probe(t *testing.T) {
 	run := func(line string) (r *vfRun, panicked bool) {
 		cf, ops, err := vfParseHistory(line)
@@ -1955,6 +1958,18 @@ func TestVerifC06Probe(t *testing.T) {
 	// F23: a first batch larger than the cache must be an error, not a panic
 	if _, panicked := run("kv-x 0 inf 1 1 3 1 1 1 1 0 10 1 F 2 0 0 1 0 1 2"); !panicked {
 		bits |= 4
+	}
+	// SWA capacity: window 2, 2 sequences, context 16, batch 4: 2*2+4 = 8 cells pinned, 2*(2+4) = 12 repaired
+	{
+		c := NewSWACache(2, nil)
+		c.Init(&vfBackend{maxNodes: 8192}, ml.DTypeF16, 2, 16, 4)
+		switch len(c.cells) {
+		case 8:
+		case 12:
+			bits |= 8
+		default:
+			t.Fatalf("unexpected sliding-window cache size %d", len(c.cells))
+		}
 	}
 	if err := os.WriteFile(zzverif.OutDir()+"/variant.txt", []byte(strconv.Itoa(bits)+"\n"), 0o644); err != nil {
 		t.Fatal(err)
